@@ -585,19 +585,22 @@ def boundary_schedules(rng, count):
 
 def random_schedule(rng, long_run=False):
     """Default chunk sizes, default window; several lifetimes."""
-    cs, cl = (10, 10000) if rng.random() < 0.7 else rng.choice([(1, 4), (2, 4), (5, 40), (10, 80)])
+    cs, cl = (10, 10000) if long_run or rng.random() < 0.7 else rng.choice([(1, 4), (2, 4), (5, 40), (10, 80)])
     ops = []
     peer_next = 0
     accepted_any = []
     lifetimes = rng.randint(3, 8)
     for life in range(lifetimes):
         ops.append({"op": "load"})
+        if long_run and life == 1:
+            # one lifetime long enough to grow the chunk to the limit (10+20+..+5120 = 10230 < count)
+            ops.append({"op": "protect", "count": 10300 + rng.randint(0, 300)})
+            ops.append({"op": "protect", "count": 3, "crash": rng.choice([None, 0, 2, 4])})
         for _ in range(rng.randint(1, 6)):
             r = rng.random()
             if r < 0.45:
-                if long_run and life == 1:
-                    n = 10300 + rng.randint(0, 300)  # grows the chunk to the limit (10+20+..+5120 < 10230)
-                    long_run = False
+                if False:
+                    pass
                 else:
                     n = rng.choice([1, 2, 3, 9, 10, 11, 19, 21, 35, 70, 150, 320])
                 ops.append({"op": "protect", "count": n, "crash": rng.choice([None, None, None, 0, 1, 2, 3, 4])})
